@@ -34,7 +34,7 @@ def run(chk):
                 'output. A case is a source string.')
     S.standard(chk, scopes(quick), INV, CLAUSES,
                'output must consist of the input characters in order; only whitespace before { or [ may vanish',
-               extra_sources=extras(chk, quick))
+               extra_sources=extras(chk, quick), runs='')
     chk.assumptions += ['side condition "mandatory arguments of \\def \\textbf \\section \\label are brace-delimited" is '
                         'decided by the reference machine: no re-bracing step fires on the source',
                         'NUL/DEL-free sources only']
